@@ -95,10 +95,12 @@ MCNew == /\ cur = <<>>
          /\ \E kind \in FocusKinds : \E p \in Inits(kind) : New(kind, p)
 MCMut == \E m \in Muts(cur.kind) : Mut(m)
 MCWrite == \E b \in {PackBytes(cur.kind, cur.p)} : Write(b)
+MCReadInto == /\ cur.kind \in RereadKinds
+              /\ \E p2 \in Inits(cur.kind) : ReadInto(cur.kind, p2, PackBytes(cur.kind, p2))
 
 MCNext == /\ steps < MaxSteps
           /\ steps' = steps + 1
-          /\ (MCNew \/ (cur # <<>> /\ (MCMut \/ MCWrite)))
+          /\ (MCNew \/ (cur # <<>> /\ (MCMut \/ MCWrite \/ MCReadInto)))
           /\ UNCHANGED vars
 
 MCInit == Init /\ ObjInit /\ steps = 0
